@@ -24,7 +24,7 @@ class AStar:
         tm = self.tm = Terms(b)
         self.pop = only(b.calls_to(ADV), "call of advance_search in run_a_star")
         self._tests = [c for c in b.calls() if c.callee and c.callee.endswith("termination_model::TerminationModel::test")]
-        self.vf = only([c for c in b.calls() if c.func.get("trait", "").endswith("frontier_model::FrontierModel") and c.func.get("method") == "valid_frontier"], "call of FrontierModel::valid_frontier")
+        self.vf = only([c for c in b.calls_deep() if c.func.get("trait", "").endswith("frontier_model::FrontierModel") and c.func.get("method") == "valid_frontier"], "call of FrontierModel::valid_frontier")
         self.outer = outermost_loop(b, self.pop.bb)
         if self.outer is None:
             raise AnchorMissing("search loop around advance_search")
